@@ -387,7 +387,11 @@ def c16_f(ctx: Ctx):
         out.append(ctx.ok(R, c, inits[0], "the imported directory is initialised as a job (state point written / validated)"))
     else:
         out.append(ctx.viol(R, c, c.node, "imported directories are not initialised: jobs imported through a schema function have no state point file"))
-    from .lints import no_nesting_move
+    from .lints import no_nesting_move, no_path_text_search, walk_pruning_effective
+    out += walk_pruning_effective(ctx, R, ["signac.import_export"])
+    out += no_path_text_search(ctx, R, [IE + ":_CopyFromZipFileExecutor.__call__", IE + ":_CopyFromTarFileExecutor.__call__", IE + ":_analyze_zipfile_for_import",
+                                       IE + ":_analyze_tarfile_for_import", IE + ":_analyze_directory_for_import", IE + ":_crawl_directory_data_space", IE + ":_zip_path_is_within"],
+                               "when a job's file tree repeats its own export path below it ('a/1/archive/a/1/result.txt') the member is written to the wrong place and overwrites the job's own file")
     out += no_nesting_move(ctx, R, [IE + ":_CopyFromTarFileExecutor.__call__", IE + ":_CopyFromDirectoryExecutor.__call__", IE + ":_copy_to_job_workspace",
                                     "signac.project:Project.clone", "signac.job:Job.move"])
     z = ctx.fn(IE + ":_CopyFromZipFileExecutor.__call__")
@@ -435,4 +439,11 @@ def c16_h(ctx: Ctx):
                                   "paths and schemas are computed from the jobs given in this call; a remembered result belongs to another selection")
 
 
-RULES = [c16_a, c16_b, c16_c, c16_d, c16_e, c16_f, c16_g, c16_h]
+@rule("C16-i")
+def c16_i(ctx: Ctx):
+    """Per-job / per-entry loops are independent: nothing read in one iteration was computed in another."""
+    from .lints import per_item_loops
+    return per_item_loops(ctx, "C16-i", [('signac.import_export:_analyze_directory_for_import', 'a directory is imported with the state point / job of the previous one'), ('signac.import_export:_analyze_zipfile_for_import', 'an archive directory is imported with the state point / job of the previous one'), ('signac.import_export:_analyze_tarfile_for_import', 'an archive directory is imported with the state point / job of the previous one'), ('signac.import_export:_crawl_directory_data_space', 'a directory is paired with the state point parsed for the previous one'), ('signac.import_export:_export_jobs', 'a job is exported to the path computed for the previous one')])
+
+
+RULES = [c16_a, c16_b, c16_c, c16_d, c16_e, c16_f, c16_g, c16_h, c16_i]
